@@ -541,6 +541,13 @@ Proof.
     unfold s_xmks. keeps_tac.
   - unfold s_xshift. keeps_tac.
   - unfold s_xtrim. keeps_tac.
+  - destruct (negb (y <? length vs) || fst (nth y vs (false, None))); [reflexivity|]. apply L.
+    unfold s_xsetref. destruct (snd (nth y vs (false, None))) as [[t' l']|]; keeps_tac.
+  - unfold s_xsetval. keeps_tac.
+  - unfold s_xsetlen. destruct v as [[t l]|]; keeps_tac.
+  - destruct (negb (t <? length vs) || negb (fst (nth t vs (false, None)))); [reflexivity|]. apply L.
+    unfold s_xslcopy. keeps_tac.
+  - unfold s_xslset. keeps_tac.
   - destruct (tr =? 0); [reflexivity|]. apply L. unfold s_tnew. keeps_tac.
   - destruct (negb _); [reflexivity|]. apply L. unfold s_tinsert. destruct (t_at _ _); keeps_tac.
   - destruct (negb _); [reflexivity|]. apply L. unfold s_tstore. destruct (t_at _ _); keeps_tac.
@@ -594,6 +601,7 @@ Definition array_op (o : op) : bool :=
   match o with
   | OMkSlice _ _ _ _ | OWrite _ _ _ _ _ | OXAssign _ _ | OXAppend _ _ | OXSet _ _ | OXSetStr _ _
   | OXAssignSlice _ _ | OXMkSlice _ _ | OXShift _ _ | OXTrim _ _
+  | OXSetRef _ _ | OXSetVal _ _ _ | OXSetLen _ _ | OXSliceCopy _ _ | OXSliceSet _ _ _
   | OTNew _ _ _ _ | OTInsert _ _ _ _ _ | OTStore _ _ _ _ _ | OTReserve _ _ _ _ | OTResize _ _ _ _ | OTDetach _ _ _
   | OTRead _ | OPCompact _ _ | OPSwap _ _ _ _ | OMSet _ _ _ _ _ => false
   | _ => true
@@ -1116,6 +1124,112 @@ Proof.
   split; [discriminate|]. split; [exact I|]. rewrite lset_abs_same by assumption. reflexivity.
 Qed.
 
+(* ------------------------------------------------------------------ further C++ entry points of mpt++/array.cpp *)
+Lemma step_xsetval st x tr d : inv st -> step_ok st (OXSetVal x tr d).
+Proof.
+  intros I. arr_guards I st x Hx Hs.
+  eapply (arr_step st (OXSetVal x tr d) false _ (fun h => s_xsetval (aval (sheap st) (hbuf (hnd st x))) tr d));
+    auto; [arr_eq_step Hx Hs | arr_eq_spec Hx Hs | ].
+  intros cnt acc. apply x_set_val_sem.
+Qed.
+
+Lemma step_xsetlen st x n : inv st -> step_ok st (OXSetLen x n).
+Proof.
+  intros I.
+  apply (step_direct st (OXSetLen x n) x (fun b => x_set_len b n)
+           (fun h v => s_xsetlen h v n)
+           (fun hp a i b => lift hp a (do b1 <- x_set_len b n; Ok (hset hp i b1, a, 0)))); auto.
+  - intros h v [->|Gd]; [reflexivity|]. unfold s_xsetlen. destruct v as [[t l]|]; [rewrite Gd|]; reflexivity.
+  - intros. apply xsetlen_sem; auto.
+Qed.
+
+Lemma step_xsetref st x y : inv st -> step_ok st (OXSetRef x y).
+Proof.
+  intros I. arr_guards I st x Hx Hs.
+  unfold step_ok, step, sstep. cbn [target is_slice_op].
+  rewrite abs_length, (proj2 (Nat.ltb_lt _ _) Hx), Hs, !nth_abs, (absh_arr _ _ Hs). cbn [negb Bool.eqb].
+  destruct (Nat.ltb_spec y (length (shnd st))) as [Hy|Hy]; cbn [negb orb].
+  2:{ split; [discriminate|]. split; [exact I|reflexivity]. }
+  destruct (hsl (hnd st y)) eqn:Hsy.
+  { unfold absh. rewrite Hsy. cbn [fst]. split; [discriminate|]. split; [exact I|reflexivity]. }
+  rewrite (absh_arr _ _ Hsy). cbn [fst snd].
+  assert (Hk : forall j, hbuf (hnd st y) = Some j -> exists c, hget (sheap st) j = Some c).
+  { intros j Hj. destruct (inv_get st y j I Hj) as [c [Ec _]]. eauto. }
+  set (v := aval (sheap st) (hbuf (hnd st x))).
+  assert (Ty : match hbuf (hnd st y) with
+               | Some k => match hget (sheap st) k with Some c => negb (btr c =? 0) | None => false end
+               | None => false end = true ->
+               s_xsetref v (aval (sheap st) (hbuf (hnd st y))) = R v).
+  { unfold s_xsetref, aval. destruct (hbuf (hnd st y)) as [j|]; [|discriminate].
+    destruct (hget (sheap st) j) as [c|]; [|discriminate]. cbn [option_map bval]. intros ->. reflexivity. }
+  assert (Tn : match hbuf (hnd st y) with
+               | Some k => match hget (sheap st) k with Some c => negb (btr c =? 0) | None => false end
+               | None => false end = false ->
+               s_xsetref v (aval (sheap st) (hbuf (hnd st y))) = D (aval (sheap st) (hbuf (hnd st y)))).
+  { unfold s_xsetref, aval. destruct (hbuf (hnd st y)) as [j|]; [|reflexivity].
+    destruct (hget (sheap st) j) as [c|]; [|reflexivity]. cbn [option_map bval]. intros ->. reflexivity. }
+  destruct (match hbuf (hnd st y) with
+            | Some k => match hget (sheap st) k with Some c => negb (btr c =? 0) | None => false end
+            | None => false end) eqn:T.
+  { rewrite (Ty eq_refl). cbn [R fst snd]. split; [discriminate|]. split; [exact I|].
+    subst v. rewrite lset_abs_same by assumption. reflexivity. }
+  rewrite (Tn eq_refl).
+  pose proof (ref_assign_sound st x (hbuf (hnd st y)) (hsl (hnd st x)) (hoff (hnd st x)) (hlen (hnd st x)) I Hx Hk) as Rf.
+  cbn zeta in Rf. destruct (ref_assign (sheap st) (hbuf (hnd st x)) (hbuf (hnd st y))) as [hp1 a1].
+  cbn [fst snd] in Rf. destruct Rf as [Ea [I' [F V]]]. subst a1.
+  split; [discriminate|]. split; [exact I'|]. unfold upd_arr.
+  rewrite (abs_frame st x hp1 _ Hx F). rewrite absh_arr by exact Hs. cbn [hbuf D fst snd vis].
+  f_equal. f_equal. f_equal. unfold aval. destruct (hbuf (hnd st y)) as [j|]; [|reflexivity].
+  exact (eq_sym (V j eq_refl)).
+Qed.
+
+Lemma step_xslcopy st x t : inv st -> step_ok st (OXSliceCopy x t).
+Proof.
+  intros I. slice_guards I st x Hx Hs.
+  unfold step_ok, step, sstep. cbn [target is_slice_op].
+  rewrite abs_length, (proj2 (Nat.ltb_lt _ _) Hx), Hs, !nth_abs, (absh_sl _ _ Hs). cbn [negb Bool.eqb].
+  destruct (Nat.ltb_spec t (length (shnd st))) as [Hy|Hy]; cbn [negb orb].
+  2:{ split; [discriminate|]. split; [exact I|reflexivity]. }
+  destruct (hsl (hnd st t)) eqn:Hsy.
+  2:{ unfold absh. rewrite Hsy. cbn [fst negb]. split; [discriminate|]. split; [exact I|reflexivity]. }
+  rewrite (absh_sl _ _ Hsy). cbn [fst snd negb].
+  assert (Hk : forall j, hbuf (hnd st t) = Some j -> exists c, hget (sheap st) j = Some c).
+  { intros j Hj. destruct (inv_get st t j I Hj) as [c [Ec _]]. eauto. }
+  set (h' := fun a1 : arr => match hbuf (hnd st t) with
+                             | Some _ => mkh a1 true (hoff (hnd st t)) (hlen (hnd st t))
+                             | None => mkh a1 true 0 0 end).
+  pose proof (ref_assign_sound st x (hbuf (hnd st t)) true (hoff (h' None)) (hlen (h' None)) I Hx Hk) as Rf.
+  cbn zeta in Rf. destruct (ref_assign (sheap st) (hbuf (hnd st x)) (hbuf (hnd st t))) as [hp1 a1].
+  cbn [fst snd] in Rf. destruct Rf as [Ea [I' [F V]]]. subst a1.
+  assert (Eh : mkh (hbuf (hnd st t)) true (hoff (h' None)) (hlen (h' None)) = h' (hbuf (hnd st t))).
+  { subst h'. cbn beta. destruct (hbuf (hnd st t)); reflexivity. }
+  rewrite Eh in I'. subst h'. cbn beta in *.
+  split; [discriminate|]. split; [exact I'|].
+  rewrite (abs_frame st x hp1 _ Hx F). cbn [s_xslcopy D fst snd vis]. f_equal. f_equal.
+  destruct (hbuf (hnd st t)) as [j|] eqn:Ey.
+  - rewrite absh_sl by reflexivity. cbn [hbuf hoff hlen]. f_equal.
+    symmetry. apply (wval_hval _ _ _ _ _ (V j eq_refl)).
+  - rewrite absh_sl by reflexivity. reflexivity.
+Qed.
+
+Lemma step_xslset st x d ok : inv st -> step_ok st (OXSliceSet x d ok).
+Proof.
+  intros I. slice_guards I st x Hx Hs.
+  unfold step_ok, step, sstep. cbn [target is_slice_op].
+  rewrite abs_length, (proj2 (Nat.ltb_lt _ _) Hx), Hs, !nth_abs, (absh_sl _ _ Hs). cbn [negb Bool.eqb].
+  unfold s_xslset. destruct ok; cbn [negb].
+  2:{ cbn [R fst snd]. split; [discriminate|]. split; [exact I|]. rewrite lset_abs_same_sl by assumption. reflexivity. }
+  pose proof (x_set_sem (sheap st) (hbuf (hnd st x)) d (inv_aok st x I)) as Sem.
+  destruct (x_set (sheap st) (hbuf (hnd st x)) d) as [hp1 a1 n|hp1 a1|]; cbn [ares_ok] in Sem; [| |contradiction].
+  - destruct Sem as [T Sp].
+    destruct (ptrans_sound st x _ hp1 a1 (mkh a1 true 0 (length d)) I Hx eq_refl T eq_refl) as [I' F].
+    split; [discriminate|]. split; [exact I'|].
+    rewrite (abs_frame st x hp1 _ Hx F), absh_sl by reflexivity. cbn [hbuf hoff hlen D fst snd vis].
+    assert (Av : aval hp1 a1 = Some (0, d)) by (unfold s_xset, D in Sp; congruence).
+    rewrite wval_window, Av. unfold window. cbn [skipn]. rewrite firstn_all. reflexivity.
+  - destruct Sem as [T [Sp AV]]. unfold s_xset, D in Sp. discriminate Sp.
+Qed.
+
 Theorem cow_step_all st o : inv st -> step_ok st o.
 Proof.
   intros I. destruct o;
@@ -1123,7 +1237,7 @@ Proof.
                step_bufinsert, step_bufcut, step_bufset, step_new, step_flags,
                step_reserve, step_printf, step_string, step_mkslice, step_write,
                step_xassign, step_xappend, step_xset, step_xsetstr, step_xassign_slice, step_xmkslice,
-               step_xshift, step_xtrim, step_tnew, step_tinsert, step_tstore, step_treserve, step_tresize,
+               step_xshift, step_xtrim, step_xsetref, step_xsetval, step_xsetlen, step_xslcopy, step_xslset, step_tnew, step_tinsert, step_tstore, step_treserve, step_tresize,
                step_tdetach, step_tread, step_pcompact, step_pswap, step_mset.
 Qed.
 
